@@ -386,6 +386,28 @@ def open_cases(rng, tier):
             yield Case("xr_open", [o, b"%d" % size, bytes(b)], kind="malformed", tags=["open-damaged", "damage:%d" % kind])
 
 
+def open_boundary_cases(rng):
+    """/Size at the limit MAX_ID (accepted) and above it (refused); a /Prev cycle; a section whose /Prev is itself"""
+    for size, good in ((1000000, True), (1000001, False)):
+        revs = [Revision({1: Obj({"A": 1})}, fmt="table", trailer={"VpRev": 0}, size=size)]
+        data, info = write_file(revs)
+        if good:
+            exp = [b"!", canon({"A": 1}), b"!", canon({"VpRev": 0, "Size": size})]
+            yield Case("xr_open", [b"s", b"3", data], expect=ok(*exp), tags=["open-size-limit"])
+        else:
+            yield Case("xr_open", [b"s", b"3", data], expect=err(), kind="malformed", tags=["open-size-limit"])
+    revs = [Revision({1: Obj({"A": 1})}, fmt="table", trailer={"VpRev": 0, "Pad": 11111}), Revision({1: Obj({"A": 2})}, fmt="table", trailer={"VpRev": 1})]
+    data, info = write_file(revs)
+    a, b = info["startxrefs"]
+    assert data.count(b"/Pad 11111") == 1 and b < 10000
+    good = [b"!", canon({"A": 2}), canon({"VpRev": 1, "Prev": a, "Size": 2})]
+    yield Case("xr_open", [b"s", b"2", data], expect=ok(*good), tags=["open-prev-cycle"])
+    cyc = data.replace(b"/Pad 11111", b"/Prev %04d" % b)      # same length: the oldest section points to the newest one
+    yield Case("xr_open", [b"s", b"2", cyc], expect=err(), kind="malformed", tags=["open-prev-cycle"])
+    self_ = data.replace(b"/Pad 11111", b"/Prev %04d" % a)    # the oldest section points to itself
+    yield Case("xr_open", [b"s", b"2", self_], expect=err(), kind="malformed", tags=["open-prev-cycle"])
+
+
 def merge_malformed(rng, tier):
     """sections that no well-formed history produces: decreasing generations, duplicates, numbers >= /Size,
     /Size smaller than an older section needs.  Judged against the model only."""
@@ -416,6 +438,8 @@ def generate(rng, tier):
     for c in section_cases(rng, tier):
         yield c
     for c in open_cases(rng, tier):
+        yield c
+    for c in open_boundary_cases(rng):
         yield c
     for c in merge_malformed(rng, tier):
         yield c
